@@ -163,8 +163,8 @@ def corruptions(ctx, H, rng, version1, version2):
             "ENCODING": ["UTF-16", "ASCII", "USASCI", "TYPE1", "NONE", "OFXSGML"],
             "CHARSET": ["1253", "UTF-8", "ISO-8859-2", "none", "USASCII", "TYPE1"],
             "COMPRESSION": ["GZIP", "ZIP", "OFXSGML", "TYPE1", "USASCII"],
-            "OFXHEADER": ["200", "101", "1000", "abc", "0", "00", "000"],
-            "VERSION": ["1O2", "abc", "1020", "10200", "1.2", "1_02", "10_2", "+102", "-102", "1e2", "0x66", "1 02", "102_"],
+            "OFXHEADER": ["200", "101", "1000", "abc", "0", "00", "000", "0100", "00100"],
+            "VERSION": ["1O2", "abc", "1020", "10200", "1.2", "1_02", "10_2", "+102", "-102", "1e2", "0x66", "1 02", "102_", "0102", "00102", "000000102"],
             "OLDFILEUID": [long37, long60],
             "NEWFILEUID": [long37, long60],
         }
@@ -199,8 +199,8 @@ def corruptions(ctx, H, rng, version1, version2):
     # ---- v2 ----
     for q in ('"', "'"):
         bad_values = {
-            "OFXHEADER": ["100", "201", "abc", "0", "00"],
-            "VERSION": ["204", "199", "221", "2030", "abc", "2O3", "20", "0", "2_03", "20_3", "+203", "-203", "2e2", "0xcb", "2 03", "203_", "2.03"],
+            "OFXHEADER": ["100", "201", "abc", "0", "00", "0200", "00200"],
+            "VERSION": ["204", "199", "221", "2030", "abc", "2O3", "20", "0", "2_03", "20_3", "+203", "-203", "2e2", "0xcb", "2 03", "203_", "2.03", "0203", "00203"],
             "SECURITY": ["TYPE2", "none", "USASCII", "OFXSGML"],
             "OLDFILEUID": [long37, long60],
             "NEWFILEUID": [long37, long60],
@@ -214,6 +214,24 @@ def corruptions(ctx, H, rng, version1, version2):
         for i in range(len(rows) - 1):
             sw = rows[:i] + [rows[i + 1], rows[i]] + rows[i + 2:]
             must_refuse(ctx, H, v2_text(sw, q), f"transpose={rows[i][0]}", "v2")
+    # numbers written with digits that are not ASCII digits (through the string entry points; a file would have to be decoded first)
+    for cls, text in ((H.OFXHeaderV1, v1_text(v1_lines(version1))), (H.OFXHeaderV2, v2_text(v2_attrs(version2)))):
+        for field, val in (("VERSION", str(version1 if cls is H.OFXHeaderV1 else version2)), ("OFXHEADER", "100" if cls is H.OFXHeaderV1 else "200")):
+            for base in (0x0660, 0xFF10):
+                odd = "".join(chr(base + int(c)) for c in val)
+                sep = ":" if cls is H.OFXHeaderV1 else '="'
+                bad = text.replace(field + sep + val, field + sep + odd, 1)
+                ctx.ev()
+                ctx.count("corruptions")
+                case = {"op": "corrupt-str", "text": bad, "what": f"{field}=non-ascii-digits", "kind": cls.__name__}
+                try:
+                    h, _ = cls.parse(bad)
+                except H.OFXHeaderError:
+                    continue
+                except Exception as e:
+                    ctx.violation(f"corrupt/{cls.__name__}/wrong-exception/{field}", f"{field} in non-ASCII digits: raised {type(e).__name__}: {e}", case)
+                    continue
+                ctx.violation(f"corrupt/{cls.__name__}/accepted/{field}-non-ascii-digits", f"{cls.__name__}.parse accepted {field}={odd!r}: {fields_of(h)}", case)
     # sanity: the uncorrupted templates are accepted (otherwise the corruption verdicts mean nothing)
     for text in (v1_text(v1_lines(version1)), v2_text(v2_attrs(version2)), v2_text(v2_attrs(version2), "'")):
         ctx.ev()
@@ -310,6 +328,16 @@ def run_shard(ctx):
         constructor_refusals(ctx, H)
 
 
+def replay_str(ctx, H, case):
+    cls = getattr(H, case["kind"])
+    ctx.ev()
+    try:
+        h, _ = cls.parse(case["text"])
+    except H.OFXHeaderError:
+        return
+    ctx.violation(f"corrupt/{case['kind']}/accepted/{case['what'].split('=')[0]}-non-ascii-digits", f"accepted: {fields_of(h)}", case)
+
+
 def replay(ctx, case):
     ref_header.selftest()
     import ofxtools.header as H
@@ -317,6 +345,8 @@ def replay(ctx, case):
     op = case["op"]
     if op == "roundtrip":
         roundtrip(ctx, H, case["version"], case["security"], case["old"], case["new"], case["vform"])
+    elif op == "corrupt-str":
+        replay_str(ctx, H, case)
     elif op == "corrupt":
         must_refuse(ctx, H, case["text"], case["what"], case["kind"])
     elif op == "make_header_refuse":
